@@ -121,6 +121,7 @@ def main(argv=None):
     ap.add_argument("--budget", type=float)
     ap.add_argument("--no-shrink", action="store_true")
     ap.add_argument("--keep-going", action="store_true")
+    ap.add_argument("--dump-digests")
     a = ap.parse_args(argv)
     prop = a.prop
     if prop not in REGISTRY:
@@ -194,6 +195,9 @@ def check(prop, a, info):
     if bad:
         print("HARNESS-NONDETERMINISM: %s" % bad)
         return 2
+    if a.dump_digests:
+        with open(a.dump_digests, "w") as f:
+            json.dump({str(r["i"]): r["digest"] for r in batch.results}, f, sort_keys=True)
     known = K.load_known()
     mine, known_hits = [], {}
     for r in batch.results:
